@@ -293,6 +293,7 @@ func ruleC14(w *World, r *Report) {
 	}
 	ruleC14Scratch(w, r)
 	r.withRule("R14.10", func() { ruleC17DoneOnce(w, r) })
+	ruleSocketAddresses(w, r, P, "R14.11")
 	ruleC14EveryMarker(w, r)
 	ruleC14Consumer(w, r)
 	ruleC14More(w, r)
